@@ -28,7 +28,7 @@ ASSUMPTIONS = ["variant g_prod implementations perform the same floating-point o
                "reversible_heun need the diffusion itself"]
 REQUIRED_COUNTERS = ["variant_equal", "variant_explicit_error", "op_prod", "op_gdg_diagonal", "op_gdg_scalar",
                      "op_gdg_additive", "op_levy_v1", "op_levy_v2", "renamed_runs", "renamed_with_decoy_runs",
-                     "op_gdg_general_columnwise"]
+                     "op_gdg_general_columnwise", "call_sequences_on_one_object"]
 VARIANTS = ["f_g", "f_and_g", "f_gprod", "f_and_g_prod", "f_and_g+g_prod", "all", "renamed", "renamed+decoy",
             "renamed_pair+decoy", "renamed_pairprod+decoy"]
 # renaming through `names`: the method named by the user is the one integrated, also when the object happens to have
@@ -169,6 +169,32 @@ def run_iface(case):
                 viol.append({"mechanism": "supported_interface_rejected", "detail": ctx})
         else:
             viol.append({"mechanism": "non_explicit_error", "detail": f"{ctx} {outcome}"})
+    # a SEQUENCE of calls on ONE object: the "renamed+decoy" object (f, g = decoys; mu, sigma = the real functions) is
+    # first solved with names=..., then WITHOUT names, then with names again. A per-call renaming must leave no trace on
+    # the user's object: the middle call integrates the decoys, the outer two the real functions.
+    if ref is not None and not viol:
+        obj = Variant(base, "renamed+decoy")
+
+        def run(**kw):
+            bm = torchsde.BrownianInterval(t0=0.0, t1=0.5, size=(B, base.m), entropy=entropy,
+                                           levy_area_approximation=zoo.levy_for(cell["method"]))
+            return zoo.solve(cell, obj, y0, ts, dt, bm=bm, **kw)
+        decoy_ref = Variant(base, "renamed+decoy")
+        want_plain = zoo.solve(cell, decoy_ref, y0, ts, dt, bm=torchsde.BrownianInterval(
+            t0=0.0, t1=0.5, size=(B, base.m), entropy=entropy, levy_area_approximation=zoo.levy_for(cell["method"])))
+        a = run(names=dict(NAMES["renamed+decoy"]))
+        b = run()
+        c = run(names={"drift": "mu"})  # only the drift renamed: diffusion is the decoy g
+        a2 = run(names=dict(NAMES["renamed+decoy"]))
+        cnt["call_sequences_on_one_object"] = 1
+        if not (torch.equal(a, ref) and torch.equal(a2, ref) and torch.equal(b, want_plain)):
+            viol.append({"mechanism": "renaming_leaves_a_trace_on_the_user_object",
+                         "detail": f"cell={zoo.cell_name(cell)}: named call equal to reference: {torch.equal(a, ref)} / "
+                                   f"{torch.equal(a2, ref)}; plain call in between equal to a fresh object's: "
+                                   f"{torch.equal(b, want_plain)}"})
+        if torch.equal(c, ref) or torch.equal(c, want_plain):
+            viol.append({"mechanism": "partial_renaming_not_applied",
+                         "detail": f"cell={zoo.cell_name(cell)}: names={{'drift': 'mu'}} must integrate (mu, decoy g)"})
     return {"violations": viol, "counters": cnt, "max": {}, "nontrivial": True,
             "sample": {"cell": zoo.cell_name(cell), **cnt}}
 
